@@ -81,6 +81,29 @@ def check_grid(ctx, case):
             cc[2 * d] = 1
             check_rejected(ctx, svs, tuple(cc), "grid %s min %d off the "
                            "chunk lattice (chunk size %d)" % (grid, 1, cs))
+    if cs > 1:
+        # off the lattice on one, two or three axes at once - every offset
+        # triple for small chunks, a spread of them (offsets that add up to
+        # the chunk size, to a multiple of it, equal offsets, cs/2, cs-1)
+        # otherwise - at the origin and at the last chunk
+        if cs <= 4:
+            offs = [o for o in itertools.product(range(cs), repeat=3)
+                    if any(o)]
+        else:
+            h, q = cs // 2, cs // 4
+            offs = [(h, h, 0), (0, h, h), (h, 0, h), (1, cs - 1, 0),
+                    (1, 2, cs - 3), (q, q, h), (cs - 1, cs - 1, 2),
+                    (1, 1, 1), (h, h, h), (cs - 1, cs - 1, cs - 1),
+                    (q, 3 * q, 0), (1, 0, cs - 1), (3, 5, cs - 8)]
+        for base in ([0, 0, 0], [g - 1 for g in grid]):
+            for o in offs:
+                cc = list(coords(base, cs, sizes))
+                for d in range(3):
+                    cc[2 * d] += o[d]
+                    cc[2 * d + 1] += o[d]
+                check_rejected(ctx, svs, tuple(cc), "grid %s chunk %s moved "
+                               "off the chunk lattice by %s (chunk size %d)"
+                               % (grid, base, list(o), cs))
     # direct grid-coordinate entry point: non-integers and out-of-grid
     for bad in ([0.5, 0, 0], [0, 1.0, 0], [0, 0, grid[2]], [grid[0], 0, 0],
                 [0, -1, 0], [None, 0, 0]):
